@@ -104,6 +104,7 @@ def build_network(case):
 
 class MCMCProp(Prop):
     budgets = {"quick": 22, "thorough": 300}
+    recheck = {"quick": 4, "thorough": 20}
     search_budget = {"quick": 40, "thorough": 300}
     assumptions = ["DrawSet.draw and random.random() are assumed uniform; the run injects deterministic draws from a private PRNG",
                    "the order in which networkx lists a vertex's edges is not modelled: corner lists are validated as sets",
